@@ -116,5 +116,5 @@ impl_id!(ScannerModeID, ScannerModeIDBase);
 
 /// The ID type for groups in Partitions. This is the index of the group in the partition vector of
 /// the minimizer.
-pub(crate) type StateGroupIDBase = u16;
+pub(crate) type StateGroupIDBase = u32;
 impl_id!(StateGroupID, StateGroupIDBase);
